@@ -16,7 +16,9 @@ import (
 	"github.com/whatap/golib/lang/service"
 	"github.com/whatap/golib/lang/step"
 	"github.com/whatap/golib/lang/value"
+	"github.com/whatap/golib/util/compressutil"
 	"github.com/whatap/golib/util/hmap"
+	"github.com/whatap/golib/util/list"
 )
 
 var i64b = []int64{0, 1, -1, 127, 128, -128, -129, 32767, 32768, -32769, 1 << 23, -(1 << 23) - 1, 1 << 31, -(1 << 31) - 1,
@@ -295,7 +297,7 @@ func Fill(r *rand.Rand, p interface{}, depth int) {
 
 // StepTypes are the registered step type tags.
 var StepTypes = []byte{step.STEP_METHOD_X, step.STEP_SQL_X, step.STEP_RESULTSET, step.STEP_SOCKET, step.STEP_HTTPCALL_X,
-	step.STEP_ACTIVE_STACK, step.STEP_MESSAGE, step.STEP_SECURE_MESSAGE, step.STEP_DBC}
+	step.STEP_ACTIVE_STACK, step.STEP_MESSAGE, step.STEP_SECURE_MESSAGE, step.STEP_DBC, step.STEP_MESSAGE_X}
 
 func Step(r *rand.Rand, t byte) step.Step {
 	s := step.CreateStep(t)
@@ -389,4 +391,190 @@ func Encode(f func(out *gio.DataOutputX)) (b []byte) {
 	f(out)
 	b = append([]byte(nil), out.ToByteArray()...)
 	return b
+}
+
+// ---------------------------------------------------------------------------
+// Deep instances (added for C04's second-stage runs; Pack above is unchanged).
+
+// sliceEnum is an hmap.Enumeration over a slice.
+type sliceEnum struct {
+	items []interface{}
+	i     int
+}
+
+func (e *sliceEnum) HasMoreElements() bool { return e.i < len(e.items) }
+func (e *sliceEnum) NextElement() interface{} {
+	x := e.items[e.i]
+	e.i++
+	return x
+}
+
+// AnyList builds a random column of n cells of a random list type.
+func AnyList(r *rand.Rand, n int) list.AnyList {
+	var a list.AnyList
+	switch r.Intn(5) {
+	case 0:
+		a = list.NewIntListDefault()
+	case 1:
+		a = list.NewLongListDefault()
+	case 2:
+		a = list.NewFloatListDefault()
+	case 3:
+		a = list.NewDoubleListDefault()
+	default:
+		a = list.NewStringListDefault()
+	}
+	for i := 0; i < n; i++ {
+		switch a.GetType() {
+		case list.ANYLIST_INT:
+			a.AddInt(int(int32(Int64(r))))
+		case list.ANYLIST_LONG:
+			a.AddLong(Int64(r))
+		case list.ANYLIST_FLOAT:
+			a.AddFloat(F32(r))
+		case list.ANYLIST_DOUBLE:
+			a.AddDouble(F64(r))
+		default:
+			a.AddString(Text(r))
+		}
+	}
+	return a
+}
+
+// Steps builds a short random profile.
+func Steps(r *rand.Rand, n int) []step.Step {
+	var out []step.Step
+	for i := 0; i < n; i++ {
+		out = append(out, Step(r, StepTypes[r.Intn(len(StepTypes))]))
+	}
+	return out
+}
+
+// recordPackTypes are the pack types put inside zip record streams.
+var recordPackTypes = []int16{pack.PACK_TEXT, pack.PACK_PARAMETER, pack.TAG_COUNT, pack.PACK_LOGSINK, pack.PACK_EVENT}
+
+// PackDeep is Pack plus the state that Pack leaves empty because it is private or
+// produced by setters: the lazily decoded second stage of the pack (data table,
+// record blobs - plain and compressed -, profiles, call stacks).  ColumnKey(0)
+// names the first column of a StatGeneralPack table.
+func PackDeep(r *rand.Rand, t int16) pack.Pack {
+	p := Pack(r, t)
+	if p == nil {
+		return nil
+	}
+	recs := func(mk func() interface{}) (int, *sliceEnum) {
+		n := 1 + r.Intn(3)
+		e := &sliceEnum{}
+		for i := 0; i < n; i++ {
+			x := mk()
+			Fill(r, x, 1)
+			e.items = append(e.items, x)
+		}
+		return n, e
+	}
+	switch q := p.(type) {
+	case *pack.StatGeneralPack:
+		rows := 1 + r.Intn(4)
+		for i, n := 0, 1+r.Intn(3); i < n; i++ {
+			q.Put(ColumnKey(i), AnyList(r, rows))
+		}
+	case *pack.ZipPack:
+		var items []pack.Pack
+		for i, n := 0, 1+r.Intn(3); i < n; i++ {
+			items = append(items, Pack(r, recordPackTypes[r.Intn(len(recordPackTypes))]))
+		}
+		q.Status = 0
+		q.SetRecords(items)
+		if r.Intn(2) == 0 {
+			if z, err := compressutil.DoZip(q.Records); err == nil {
+				q.Records, q.Status = z, pack.ZIPPED
+			}
+		}
+	case *pack.LogSinkZipPack:
+		o := gio.NewDataOutputX()
+		n := 1 + r.Intn(3)
+		for i := 0; i < n; i++ {
+			pack.WritePack(o, Pack(r, pack.PACK_LOGSINK))
+		}
+		q.Status, q.RecordCount = pack.UN_ZIPPED, n
+		q.SetRecords(append([]byte(nil), o.ToByteArray()...), []int{0, 1 << 20}[r.Intn(2)])
+	case *pack.ProfilePack:
+		q.SetProfile(Steps(r, 1+r.Intn(3)))
+	case *pack.ErrorSnapPack1:
+		q.SetProfile(Steps(r, 1+r.Intn(3)))
+		st := make([]int32, r.Intn(5))
+		for i := range st {
+			st[i] = int32(Int64(r))
+		}
+		q.SetStack(st)
+	case *pack.StatSqlPack:
+		q.SetRecords(recs(func() interface{} { return pack.NewSqlRec() }))
+	case *pack.StatHttpcPack:
+		q.SetRecords(recs(func() interface{} { return pack.NewHttpcRec() }))
+	case *pack.StatErrorPack:
+		q.SetRecords(recs(func() interface{} { return pack.NewErrorRec() }))
+	case *pack.StatServicePack:
+		q.SetRecords(recs(func() interface{} { return pack.NewServiceRec() }))
+	}
+	return p
+}
+
+func ColumnKey(i int) string { return "k" + string(rune('0'+i)) }
+
+// DirectType is a wire object with a Write/Read pair of its own that no factory creates.
+type DirectType struct {
+	Name string
+	Mk   func() interface{}
+}
+
+// DirectTypes are the packs and records decoded through their own Read.
+var DirectTypes = []DirectType{
+	{"ProfileStepSplitPack", func() interface{} { return pack.NewProfileStepSplitPack() }},
+	{"StatTransactionPack", func() interface{} { return pack.NewStatTransactionPack() }},
+	{"StatTransactionPack1", func() interface{} { return pack.NewStatTransactionPack1() }},
+	{"StatGeneralPack1", func() interface{} { return pack.NewStatGeneralPackType(pack.PACK_STAT_GENERAL_1) }},
+	{"SMBasePack", func() interface{} { return pack.NewSMBasePack() }},
+	{"SMDiskPerfPack", func() interface{} { return pack.NewSMDiskPerfPack() }},
+	{"SMDownCheckPack", func() interface{} { return pack.NewSMDownCheckPack() }},
+	{"SMExtension", func() interface{} { return pack.NewSMExtensionPack() }},
+	{"SMLogEventPack", func() interface{} { return pack.NewSMLogEventPack() }},
+	{"SMNetPerfPack", func() interface{} { return pack.NewSMNetPerfPack() }},
+	{"SMPingPack", func() interface{} { return pack.NewSMPingPack() }},
+	{"SMProcPerfPack", func() interface{} { return pack.NewSMProcPerfPack() }},
+	{"SMTCPPerfPack", func() interface{} { return pack.NewSMTCPPerfPack() }},
+	{"ProcPerf", func() interface{} { return &pack.ProcPerf{} }},
+	{"DiskPerf", func() interface{} { return &pack.DiskPerf{} }},
+	{"NetPerf", func() interface{} { return &pack.NetPerf{} }},
+	{"SMLogEvent", func() interface{} { return &pack.SMLogEvent{} }},
+	{"TimeCount", func() interface{} { return pack.NewTimeCountDefault() }},
+	{"SqlRec", func() interface{} { return pack.NewSqlRec() }},
+	{"HttpcRec", func() interface{} { return pack.NewHttpcRec() }},
+}
+
+// Direct builds a randomly populated instance of DirectTypes[i] (second-stage state included where setters exist).
+func Direct(r *rand.Rand, i int) interface{} {
+	p := DirectTypes[i].Mk()
+	Fill(r, p, 1)
+	switch q := p.(type) {
+	case *pack.StatGeneralPack:
+		rows := 1 + r.Intn(4)
+		for i, n := 0, 1+r.Intn(3); i < n; i++ {
+			q.Put(ColumnKey(i), AnyList(r, rows))
+		}
+	case *pack.ProfileStepSplitPack:
+		q.SetProfile(Steps(r, 1+r.Intn(3)))
+	case *pack.SMDownCheckPack:
+		var items []*pack.DownCheckRec
+		for i, n := 0, 1+r.Intn(3); i < n; i++ {
+			x := &pack.DownCheckRec{}
+			Fill(r, x, 0)
+			items = append(items, x)
+		}
+		q.SetRecords(items)
+	case *pack.SMExtension:
+		q.SetHeader(ValueOf(r, value.INT_VALUE_MAP, 1).(*value.IntMapValue))
+		q.SetValues(ValueOf(r, value.INT_VALUE_MAP, 1).(*value.IntMapValue))
+		q.SetMetaValues(ValueOf(r, value.INT_VALUE_MAP, 1).(*value.IntMapValue))
+	}
+	return p
 }
